@@ -137,6 +137,48 @@ dev_impl! {
     }
 }
 
+/// a generated optic through the lax trait (Vec device): map_arrow and map_adapted
+#[derive(Clone)]
+struct LaxGen {
+    spec: OSpec,
+}
+impl lax::optic::Optic<L, L, L, L> for LaxGen {
+    fn fwd_object(&self, o: &L) -> Vec<L> {
+        self.spec.f_of(*o)
+    }
+    fn rev_object(&self, o: &L) -> Vec<L> {
+        self.spec.r_of(*o)
+    }
+    fn residual(&self, a: &L) -> Vec<L> {
+        self.spec.m(*a)
+    }
+    fn fwd_operation(&self, a: &L, s: &[L], t: &[L]) -> lax::OpenHypergraph<L, L> {
+        lax::OpenHypergraph::from_strict(B::<VecKind>::to_dev(&self.spec.fwd_image(*a, s, t)))
+    }
+    fn rev_operation(&self, a: &L, s: &[L], t: &[L]) -> lax::OpenHypergraph<L, L> {
+        lax::OpenHypergraph::from_strict(B::<VecKind>::to_dev(&self.spec.rev_image(*a, s, t)))
+    }
+}
+fn lax_typing(c: &TypingCase) -> Result<Vec<Pair>, String> {
+    use lax::optic::Optic as LaxOptic;
+    let spec = &c.spec;
+    let o = LaxGen { spec: spec.clone() };
+    let ob = |l: L| -> Vec<L> { spec.f_of(l).into_iter().chain(spec.r_of(l)).collect() };
+    let op = |l: L, a: &[L], b: &[L]| -> Plain {
+        let blocks = |ty: &[L], fwd: bool| -> Vec<Vec<L>> { ty.iter().map(|x| if fwd { spec.f_of(*x) } else { spec.r_of(*x) }).collect() };
+        lens(&spec.fwd_image(l, a, b), &spec.rev_image(l, a, b), &blocks(a, true), &blocks(a, false), &blocks(b, true), &blocks(b, false), spec.m(l).len())
+    };
+    let rf = c.f.substitute(&ob, &op);
+    let term = lax::OpenHypergraph::<L, L>::from_strict(B::<VecKind>::to_dev(&c.f));
+    let img = B::<VecKind>::from_dev(&o.map_arrow(term.clone()).to_strict()).map_err(|e| format!("lax map_arrow: ill-formed result: {}", e))?;
+    let ad = B::<VecKind>::from_dev(&o.map_adapted(term).to_strict()).map_err(|e| format!("lax map_adapted: ill-formed result: {}", e))?;
+    let (a, b) = (c.f.src_type(), c.f.tgt_type());
+    let fwd = |l: L| spec.f_of(l);
+    let rev = |l: L| spec.r_of(l);
+    let want_ad = adapt_ref(&rf, &widths(&a, &fwd), &widths(&a, &rev), &widths(&b, &fwd), &widths(&b, &rev));
+    Ok(vec![("lax-optic-image", img, rf), ("lax-adapted-form", ad, want_ad)])
+}
+
 // the lax entry point: lax::optic::Optic::map_adapted on the Vec device
 #[derive(Clone)]
 struct LaxRd;
@@ -359,6 +401,8 @@ impl Check for C14 {
                 ex.seg_vec();
                 let r = ex.lib("C14:optic", || B::<VecKind>::c14_typing(t));
                 judge_pairs(ex, "vec", r)?;
+                let r = ex.lib("C14:optic-lax", || lax_typing(t));
+                judge_pairs(ex, "vec/lax Optic trait", r)?;
                 for _ in 0..t.schedules {
                     let pol = ex.seg_perturbed();
                     let r = ex.lib("C14:optic", || B::<SimKind>::c14_typing(t));
